@@ -253,7 +253,8 @@ fn cmd_run_engine(args: &[String]) -> ! {
         runs,
         workers: a.workers,
         known_classes: known.iter().map(|k| k.0.clone()).collect(),
-        hang_budget: Duration::from_secs(if a.tier == Tier::Quick { 40 } else { 120 }),
+        // VERIF_HANG_BUDGET_MS exists to exercise the supervisor itself
+        hang_budget: std::env::var("VERIF_HANG_BUDGET_MS").ok().and_then(|s| s.parse().ok()).map(Duration::from_millis).unwrap_or(Duration::from_secs(if a.tier == Tier::Quick { 40 } else { 120 })),
         want_samples: if bisect { 0 } else { 2 },
     };
     let res = run_batch(engine.as_ref(), &cfg, Shared::new());
@@ -307,7 +308,21 @@ fn cmd_run_engine(args: &[String]) -> ! {
             harness_error("cannot write replay file");
         }
         let exe = std::env::current_exe().unwrap_or_else(|_| harness_error("no current_exe"));
-        let st = Command::new(exe).arg("shrink").arg(&path).arg("--budget").arg(if a.tier == Tier::Quick { "20" } else { "60" }).status();
+        let budget_s: u64 = if a.tier == Tier::Quick { 20 } else { 60 };
+        let st = Command::new(exe).arg("shrink").arg(&path).arg("--budget").arg(budget_s.to_string()).spawn().and_then(|mut ch| {
+            // the minimiser bounds every candidate itself; this is the backstop
+            let t0 = std::time::Instant::now();
+            loop {
+                if let Some(s) = ch.try_wait()? {
+                    return Ok(s);
+                }
+                if t0.elapsed() > Duration::from_secs(budget_s * 3 + 60) {
+                    let _ = ch.kill();
+                    return ch.wait();
+                }
+                std::thread::sleep(Duration::from_millis(50));
+            }
+        });
         if !matches!(st.as_ref().map(|s| s.code()), Ok(Some(0))) {
             eprintln!("[sim] the minimiser did not finish cleanly ({:?}); keeping the best case found so far", st);
         }
@@ -416,7 +431,9 @@ fn cmd_shrink(args: &[String]) -> ! {
     std::env::set_var("VERIF_PROPERTY", doc["property"].as_str().unwrap_or("UNKNOWN"));
     let class = doc["expected_class"].as_str().unwrap_or("").to_string();
     let fail_step = doc["fail_step"].as_u64().unwrap_or(u64::MAX >> 1) as usize;
-    let engine = engines::get(&engine_name).unwrap_or_else(|| harness_error("unknown engine"));
+    if engines::get(&engine_name).is_none() {
+        harness_error("unknown engine");
+    }
     let known: Vec<String> = load_known(doc["property"].as_str().unwrap_or("")).into_iter().map(|k| k.0).collect();
     let case = doc["case"].clone();
     let before = case["ops"].as_array().map(|x| x.len()).unwrap_or(0);
@@ -426,14 +443,13 @@ fn cmd_shrink(args: &[String]) -> ! {
         doc_w["case"] = best.clone();
         let _ = std::fs::write(&path2, serde_json::to_string_pretty(&doc_w).unwrap());
     };
-    let (min_case, st) = crate::core::shrink::minimise(engine.as_ref(), &case, &class, fail_step, budget, &known, &mut persist);
-    eprintln!("[sim] minimised {} -> {} ops in {} executions", before, st.ops_after, st.executions);
-    let mut acc = Acc::new(Shared::new());
-    acc.known = std::sync::Arc::new(known.iter().filter(|k| !crate::core::class_is_known(&[(*k).clone()], &class)).cloned().collect());
-    acc.begin_run(0);
-    if let Some(v) = engine.run_case(&min_case, &mut acc).ok().and_then(|o| o.violation) {
-        doc["detail"] = json!(v.detail);
-        doc["fail_step"] = json!(v.step);
+    let mut runner = crate::core::shrink::CandidateRunner::new(&engine_name, &class, &known, Duration::from_secs(4));
+    let (min_case, st) = crate::core::shrink::minimise(&mut runner, &case, fail_step, budget, &mut persist);
+    eprintln!("[sim] minimised {} -> {} ops in {} executions ({} candidates did not terminate)", before, st.ops_after, st.executions, runner.abandoned);
+    runner.abandoned = 0;
+    if let Some((step, detail)) = runner.run(&min_case) {
+        doc["detail"] = json!(detail);
+        doc["fail_step"] = json!(step);
     }
     doc["case"] = min_case;
     let _ = std::fs::write(&path, serde_json::to_string_pretty(&doc).unwrap());
